@@ -1,6 +1,6 @@
 CONSTANTS
   MaxAttrs = 2
-  Names3 = {"class", "ref", "onFoo", "foo", "spread", "dir", "vmodel", "on", "key"}
+  Names3 = {"class", "ref", "onFoo", "spread", "dir"}
   TreeDepth = 2
 INIT Init
 NEXT Next
